@@ -14,6 +14,12 @@
     first action of the process uses the (still empty) first state instead of a new one,
     and every block open at the end of the body gets a transition to the first state.
 
+    [std.wait_for] / [Waiter.wait_for] are library coroutines ([await true] for the constant 1, otherwise
+    a counter signal loaded with n - 1 and [while counter: counter <<= counter - 1]); [Wait n] / [WaitIn]
+    are lowered to exactly that, with ONE counter register in the target machine (std.wait_for declares
+    one signal per call, Waiter one per object; only one wait is active at a time and the counter is
+    written before it is read, so the registers are interchangeable).
+
     Known structural differences to the emitted machines (not observable, both measured by
     the harness as "lower_state_count"): the compiler lowers the branches of an [if] once
     per open block, so states allocated inside an [if] that follows a construct with several
